@@ -278,6 +278,12 @@ func join(basePath *url.URL, relativePath *url.URL) *url.URL {
 }
 
 func resolvePath(basePath *url.URL, componentPath *url.URL) *url.URL {
+	if basePath != nil && basePath.Host != "" && componentPath.Scheme == "" &&
+		(componentPath.Host != "" || filepath.IsAbs(componentPath.Path)) {
+		// the referring document was loaded from a URL: an absolute path stays on that host and a
+		// scheme-relative reference keeps that scheme (RFC 3986); it is never a local file
+		return basePath.ResolveReference(componentPath)
+	}
 	if is_file(componentPath) {
 		// support absolute paths
 		if filepath.IsAbs(componentPath.Path) {
